@@ -151,6 +151,9 @@ def run_one(sim, params):
     attempted = {}
     thread_of = {}
 
+    def link_down():
+        return any(getattr(t, "state", None) == kernel.DONE for t in (getattr(pair, "loop_i", None), getattr(pair, "loop_t", None)))
+
     def check_threaded(final=False):
         for ci, c in enumerate(conns):
             for s, r in (("I", "T"), ("T", "I")):
@@ -169,7 +172,12 @@ def run_one(sim, params):
                     if mine != list(range(j, j + ns * len(mine), ns)):
                         raise Violation("order", "conn", "connection %d %s->%s: messages of sender thread %d arrive as %r "
                                         "(not in its sending order / with gaps); %r" % (ci, s, r, j, mine[:20], desc))
-                if final and sorted(acc) != sorted(got):
+                if final and link_down():
+                    # a thread that was held up (stalled) while it owned a lock the link loop needs can make the peer's
+                    # link timeout expire: the link is gone, what was in flight is lost with it.  Everything that was
+                    # delivered is still judged above (no duplicate, nothing foreign, order); only completeness is waived.
+                    sim.probe("link.ended_before_all_was_delivered")
+                elif final and sorted(acc) != sorted(got):
                     raise Violation("lost", "conn", "connection %d %s->%s at the end: %d messages accepted by send(), %d returned "
                                     "by recv(); %r" % (ci, s, r, len(acc), len(got), desc))
 
@@ -371,6 +379,8 @@ def run_one(sim, params):
             if main.exc is not None:
                 raise main.exc
             for t in k.tasks:
+                if isinstance(t.exc, nfc.llcp.Error) and link_down():
+                    continue        # calls on a connection whose link has ended report an error: expected
                 if t.exc is not None and not isinstance(t.exc, SystemExit):
                     raise Violation("task-died", core.exc_site(t.exc), "task %s died with %r; %r" % (t.name, t.exc, desc))
         else:
